@@ -16,6 +16,16 @@ CHECKS = {
              "'Confirmed over all paths' is required, so within the finite type domain the result is complete; bespoke operator classes are outside.",
         note="Trusted: CrossHair's model of Python, the RST table parser. Operator classes with bespoke validation are listed as outside the claim.",
         ref="3 C11"),
+    "C12": dict(
+        technique="CrossHair symbolic execution of the real DAGAnalyzer.create_dag over a symbolic statement-reference relation",
+        text="The reference relation between N top-level statements (which statement mentions whose result), the persistent flags, the way a result is "
+             "mentioned (operand, membership, scalar inside calc/filter, join operand, mixed) and a duplicated result name are symbolic booleans/indices; "
+             "the real create_dag must raise the cycle error exactly when the relation is cyclic, reject a duplicated name, and otherwise return a "
+             "permutation of the statements in which every producer precedes its consumers. Complete for N=3 (quick) and N=4 (thorough); every textual "
+             "order of a script is another point of the same symbolic space. run()-level equality of results under permutation is an argument "
+             "(statements are pure functions of their named inputs), not solved.",
+        note="Trusted: CrossHair's model of Python (networkx runs under tracing after a concrete warm-up), hand-built AST shapes. N>=5 and UDO/ruleset definitions are outside.",
+        ref="3 C12"),
     "C30": dict(
         technique="CrossHair symbolic execution of the real set_decimal_config/_parse_env_value with the environment as symbolic integers",
         text="Partial. Decides, for every integer -5..45 (and 'not defined') of both variables at once, that a setting is accepted exactly when documented, "
